@@ -137,7 +137,7 @@ def run_c09(pid, tier):
     thorough = tier == "thorough"
     rng = random.Random(vlib.seed())
     exe = vlib.build_harness("blocks", BLOCKS_SRCS, "plain")
-    work = os.path.join(vlib.CACHE, "work", pid)
+    work = os.path.join(vlib.WORK, pid)
     shutil.rmtree(work, ignore_errors=True)
     os.makedirs(work)
     ins = gen_inputs(rng, thorough)
@@ -282,7 +282,7 @@ def run_c11(pid, tier):
     V = vlib.Verdict(pid)
     thorough = tier == "thorough"
     rng = random.Random(vlib.seed())
-    work = os.path.join(vlib.CACHE, "work", pid)
+    work = os.path.join(vlib.WORK, pid)
     shutil.rmtree(work, ignore_errors=True)
     os.makedirs(work)
     ins = gen_inputs(rng, thorough)
